@@ -94,6 +94,8 @@ static int members_differing(ObjectHeaderBase * a, ObjectHeaderBase * b) {
 // Bytes that differ outside the substituted window are acceptable only if the substitution changed how OTHER
 // members were decoded (selector-like: several members differ, more bytes of them than the window holds).
 //   'R' acceptable, 'S' selector (outside the property's precondition), 'B' bad
+static std::set<std::string> g_ownedMembers;          // members the encoder overwrites when encoding (current image)
+static std::set<std::string> g_recomputedMembers;     // members found to be overwritten by the encoder (current image)
 static char judge_derived(ObjectHeaderBase * q, ObjectHeaderBase * o, const std::vector<uint8_t> & mu,
                           const std::vector<uint8_t> & out2, long k, int w) {
     if (out2.size() != mu.size()) return 'B';
@@ -119,7 +121,7 @@ static char judge_derived(ObjectHeaderBase * q, ObjectHeaderBase * o, const std:
         memcpy(L.p, keep.data(), L.n);
         MemFile restore;
         try { q->write(restore); } catch (...) {}
-        if (mm.buf == out2) continue;                              // recomputed by the encoder
+        if (mm.buf == out2) { g_recomputedMembers.insert(L.name); continue; }   // recomputed by the encoder
         if (mm.buf.size() != out2.size()) { layout = true; continue; }
         for (size_t j = 0; j < out2.size(); j++)
             if (mm.buf[j] != out2[j] && out2[j] != mu[j]) return 'B';   // a byte this member controls was not preserved
@@ -138,6 +140,25 @@ static FrameResult frame_record(ObjectHeaderBase * o, uint32_t code, const std::
     JObj r;
     r.put("code", (long) code).puts("cls", refl::class_name(o)).puts("hdr", header_kind(o)).puts("shape", shapeName).put("seed", (long) (seed & 0x7fffffff));
     std::string before = shape(o);
+    // members the encoder overwrites (derived lengths / sizes): set to another value, encode, look again
+    std::set<std::string> owned;
+    {
+        refl::Locator lo;
+        refl::visit_dyn(o, lo);
+        std::vector<std::vector<uint8_t>> keepAll;
+        for (auto & L : lo.locs) keepAll.emplace_back(L.p, L.p + L.n);
+        for (size_t i = 0; i < lo.locs.size(); i++) {
+            auto & L = lo.locs[i];
+            std::vector<uint8_t> flipped(L.n);
+            for (size_t x = 0; x < L.n; x++) flipped[x] = L.p[x] = (uint8_t) (L.p[x] ^ 0xff);
+            MemFile mm;
+            try { o->write(mm); } catch (...) {}
+            if (memcmp(L.p, flipped.data(), L.n) != 0) owned.insert(L.name);
+            // restore everything (the encoder may have touched other derived members as well)
+            for (size_t k = 0; k < lo.locs.size(); k++) memcpy(lo.locs[k].p, keepAll[k].data(), lo.locs[k].n);
+        }
+    }
+    r.raw("ownedMembers", jarr(owned.begin(), owned.end(), [](const std::string & s) { return "\"" + s + "\""; }));
     MemFile m;
     bool threw = false;
     try { o->write(m); } catch (...) { threw = true; }
@@ -503,7 +524,7 @@ int main(int argc, char ** argv) {
             ObjectHeaderBase * o = File::createObject((ObjectType) ot);
             r.puts("cls", o ? refl::class_name(o) : "none");
             bool identity = false, complete = false;
-            long badDerived = 0, okDerived = 0, ignoredBytes = 0, selectors = 0, recomputed = 0;
+            long badDerived = 0, okDerived = 0, ignoredBytes = 0, selectors = 0, recomputed = 0, inScope = 0;
             std::set<long> badOffsets;
             std::map<long, std::set<int>> badValues;      // offset -> substituted values that failed (groups: 1000 + 10*w + pattern)
             std::string firstBad;
@@ -515,6 +536,21 @@ int main(int argc, char ** argv) {
                 MemFile out;
                 o->write(out);
                 identity = (out.buf == img);
+                // members the encoder overwrites (derived lengths / sizes): set to another value, encode, look again
+                {
+                    refl::Locator lo;
+                    refl::visit_dyn(o, lo);
+                    for (auto & L : lo.locs) {
+                        std::vector<uint8_t> keep(L.p, L.p + L.n), flipped(L.n);
+                        for (size_t x = 0; x < L.n; x++) flipped[x] = L.p[x] = (uint8_t) (L.p[x] ^ 0xff);
+                        MemFile mm;
+                        try { o->write(mm); } catch (...) {}
+                        if (memcmp(L.p, flipped.data(), L.n) != 0) g_ownedMembers.insert(L.name);
+                        memcpy(L.p, keep.data(), L.n);
+                    }
+                    MemFile restore;
+                    try { o->write(restore); } catch (...) {}
+                }
                 std::string shp = shape(o);
                 std::string dumpOrig = dump(o, false);
                 bool continue_outer = false;
@@ -560,6 +596,7 @@ int main(int argc, char ** argv) {
                             MemFile out2;
                             try { q->write(out2); } catch (...) {}
                             derived++;
+                            inScope++;
                             // a byte no member depends on (alignment padding, unused rest of a union) is not a
                             // field value: the encoder writes it as zero by design
                             if (out2.buf != mu && dump(q, false) == dumpOrig) { ignoredBytes++; continue_outer = true; }
@@ -607,6 +644,7 @@ int main(int argc, char ** argv) {
                                     MemFile out2;
                                     try { q->write(out2); } catch (...) {}
                                     derived++;
+                                    inScope++;
                                     if (out2.buf != mu && dump(q, false) == dumpOrig) { ignoredBytes++; delete q; continue; }
                                     if (out2.buf != mu) {
                                         char v = judge_derived(q, o, mu, out2.buf, k, w);
@@ -630,6 +668,9 @@ int main(int argc, char ** argv) {
             }
             r.putb("complete", complete).putb("identity", identity).put("derivedOk", okDerived).put("derivedBad", badDerived).put("notAField", ignoredBytes).put("selectorLike", selectors).put("recomputed", recomputed);
             if (!firstBad.empty()) r.puts("firstBad", firstBad);
+            r.put("inScope", inScope);
+            r.raw("ownedMembers", jarr(g_ownedMembers.begin(), g_ownedMembers.end(), [](const std::string & s) { return "\"" + s + "\""; }));
+            r.raw("recomputedMembers", jarr(g_recomputedMembers.begin(), g_recomputedMembers.end(), [](const std::string & s) { return "\"" + s + "\""; }));
             r.raw("badOffsets", jarr(badOffsets.begin(), badOffsets.end(), [](long v) { return jint(v); }));
             {
                 // per offset the failing values as ranges, e.g. "1-79,137-255" (identifies the failing inputs exactly)
